@@ -157,6 +157,7 @@ TCPOPTS = {
   "mpjoin": bytes([30, 12, 0x10, 7]) + bytes(range(1, 9)),
   "mpdss": bytes([30, 20, 0x20, 0x05, 0, 0, 0, 1, 0, 0, 0, 2, 0, 0, 0, 3, 0, 4, 0, 0]),
   "unk": bytes([253, 4, 0xab, 0xcd]),
+  "unkmax": bytes([253, 4, 0xab, 0xcd]) * 10,      # the longest possible header: data offset 15
 }
 
 
